@@ -1,4 +1,7 @@
 import Ufw.Props.C08
+import Ufw.Tie.Regp
+import Ufw.Tie.Slip
+import Ufw.Tie.Varint
 #print axioms Ufw.Props.C08.req_read_wire
 #print axioms Ufw.Props.C08.req_write_wire
 #print axioms Ufw.Props.C08.resp0_wire
@@ -11,3 +14,14 @@ import Ufw.Props.C08
 #print axioms Ufw.Props.C08.ackResponse_wf
 #print axioms Ufw.Props.C08.metaFrame_wf
 #print axioms Ufw.Props.C08.emit_recv
+#print axioms Ufw.Tie.Regp.const_header_sizes
+#print axioms Ufw.Tie.Regp.const_options
+#print axioms Ufw.Tie.Regp.const_frame_types
+#print axioms Ufw.Tie.Regp.const_response_codes
+#print axioms Ufw.Tie.Regp.const_value_codes
+#print axioms Ufw.Tie.Slip.const_model_octets
+#print axioms Ufw.Tie.Slip.const_rfc1055_octets
+#print axioms Ufw.Tie.Slip.const_octets_distinct
+#print axioms Ufw.Tie.Slip.const_worst_case
+#print axioms Ufw.Tie.Varint.const_model
+#print axioms Ufw.Tie.Varint.const_leb128
